@@ -105,6 +105,13 @@ def run(rep):
             cases.append(G.element(name, 0, 2 if quick else 4))
     for _ in range(25 if quick else 300):
         cases.append(G.element('score-partwise', 0, 4 if quick else 6))
+    # elements whose text is union-typed or numeric: several documents each, read by one process, so that every value shape meets every other
+    for name in sorted(g['elements']):
+        t = G.etype.get(name)
+        sc = G.ct[t]['simple'] if t in G.ct else (t if t in G.st else None)
+        if sc and sc in G.st and (G.st[sc]['union'] is not None or G.numeric_root(sc) in docgen.XS_NUM and not G.st[sc]['enum'] and not G.st[sc]['patterns']):
+            for _ in range(6 if quick else 20):
+                cases.append(G.element(name, 0, 1))
     texts = [docgen.to_xml(c) for c in cases]
     # repository sample files
     samples = []
@@ -113,7 +120,7 @@ def run(rep):
         p = os.path.join(pdir, fn)
         if os.path.exists(p) and os.path.getsize(p) > 0:
             samples.append((fn, open(p, encoding='utf-8').read()))
-    _, rx_ = docs.run_docs(xml=texts + [s for _, s in samples])
+    _, rx_ = docs.run_docs(xml=texts + [s for _, s in samples], xml_tags=[c['tag'] for c in cases] + ['score-partwise'] * len(samples))
     r_valid, r_samples = rx_[:len(texts)], rx_[len(texts):]
     # mutants only of documents that are themselves read without loss, so that a difference is due to the mutation
     clean = [c for c, t, r in zip(cases, texts, r_valid) if 'exc' not in r and infoset.diff_text(t, r['s']) is None]
@@ -163,7 +170,7 @@ def run(rep):
                          'samples': [texts[0][:400], muts[0][1] if muts else None]})
     if not res['ok'] or res['forbidden'] or not res['build_ok']:
         if not rep.violations:
-            rep.violation('Properties/C09.v no longer checks (theorem %s)' % res['failing'], {'theorem': res['failing'], 'log': res['log'][-2000:]}, found_input=False)
+            rep.violation('Properties/C09.v no longer checks (theorem %s)' % res['failing'], {'theorem': res['failing'], 'parser_as_read_by_the_translator': json.load(open(os.path.join(C.BUILD, 'code.json'))).get('parser'), 'log': res['log'][-2000:]}, found_input=False)
     rep.assumptions += ['schema validity of the generated documents is by construction of the generator from the schema tables (content models via the derivative toolkit, values from the simple types); '
                         'xlink attributes and identity constraints (ID uniqueness) are not generated']
 
